@@ -87,6 +87,10 @@ EXPLANATION += (
     ' Round 13: a tiling loop over several arrays takes its extent from the array of the current turn (R-TILE/extent-of-the-array).'
 )
 
+EXPLANATION += (
+    ' Round 15: sibling helpers with different defaults are called with the parameter bound (R-AGREE/sibling-defaults).'
+)
+
 RULE_TEXT = (
     "one obligation per effect root, per mutating helper call, per "
     "rejection point, per log conditional, per layer argument, per uns "
@@ -157,6 +161,7 @@ def check(ctx):
     # chain, never left to a callee's default (sa/rules/forwarding.py)
     from ..rules.forwarding import check_forwarding
     check_forwarding(ctx, {'layer', 'round_to_int', 'valid_h5ad_path', 'output_dir', 'gene_id_mapper', 'expected_max'})
+    check_rounding_always_performed(ctx)
 
 
 def check_input_effects(ctx, pa, outer, inner):
@@ -1000,3 +1005,36 @@ def check_validation_always_runs(ctx, rule='R-MUST/validation-runs'):
                if ok else
                f'`{unparse(r.ast)[:60]}` does not return the verdict of '
                '_validate_h5ad')
+
+
+def check_rounding_always_performed(ctx, rule='R-MUST/rounding-performed'):
+    """`round_x_to_integers` is called when the values are known not to be
+    integers and the caller has announced the rounding; whatever it
+    decides about types, every way it returns normally goes through one of
+    the two rounding helpers.  A return that skips them ("no benefit",
+    "type too wide") leaves non-integer values in a file that validation
+    reports as rounded."""
+    fi = ctx.db.fn('validation.utils:round_x_to_integers')
+    cfg = cfg_of(fi)
+    rd = rd_of(fi)
+    rounding = set()
+    for node in cfg.nodes:
+        if node.id not in rd.live:
+            continue
+        for c in cfg.calls_in(node):
+            t = resolve_callee(ctx.db, fi, c)
+            if isinstance(t, FunctionInfo) and 'round' in t.name \
+                    and t is not fi:
+                rounding.add(node.id)
+    if not rounding:
+        raise AnalysisError(f'{fi.qual}: no rounding helper is called')
+    p = cfg.path(cfg.entry, {cfg.exit}, avoid=lambda x: x.id in rounding,
+                 edge_ok=lambda a, b, lab: lab != 'exc')
+    ok = p is None
+    ctx.touch(fi)
+    ctx.ob(rule, f'{fi.qual}:normal-return', fi.loc(fi.node), ok,
+           'every normal return has rounded the values' if ok else
+           'round_x_to_integers can return without calling a rounding '
+           'helper: the values stay non-integer in a file reported as '
+           'rounded', witness=cfg.fmt_path(p) if p else None)
+    return 1
